@@ -20,7 +20,7 @@ Lemma kind_eqb_KI a b : kind_eqb (KI a) (KI b) = ikind_eqb a b.
 Proof. reflexivity. Qed.
 Lemma kind_eqb_eq a b : kind_eqb a b = true <-> a = b.
 Proof. split; [|intros ->; unfold kind_eqb; apply Z.eqb_refl].
-  destruct a as [|x|], b as [|y|]; unfold kind_eqb; cbn [rank]; intros H; try reflexivity;
+  destruct a as [|x| |], b as [|y| |]; unfold kind_eqb; cbn [rank]; intros H; try reflexivity;
     try (cbn in H; discriminate);
     try (destruct x; cbn in H; discriminate); try (destruct y; cbn in H; discriminate).
   f_equal. apply ikind_eqb_eq. exact H. Qed.
@@ -281,11 +281,13 @@ Proof. split; vm_compute; reflexivity. Qed.
 Local Opaque wrap in_rangeb.
 
 (* ---------- C04: whatever strict mode accepts, relaxed mode computes identically ---------- *)
-Definition wf (v : value) : Prop := match v with VInt k z => in_range k z | _ => True end.
+Definition wf (v : value) : Prop :=
+  match v with VInt k z => in_range k z | VFlt z => f64 z = z | _ => True end.
 
 Lemma coerce_same v : wf v -> coerce v (kind_of v) = Ok v.
-Proof. destruct v as [k z|b|s]; cbn [wf kind_of coerce]; intros H.
+Proof. destruct v as [k z|b|s|z]; cbn [wf kind_of coerce]; intros H.
   - rewrite wrap_id by exact H. reflexivity.
+  - reflexivity.
   - reflexivity.
   - reflexivity.
 Qed.
@@ -372,3 +374,30 @@ Lemma dynamic_differs :
   store Dynamic (VInt I8 0) (VInt Int 5, true) = Ok (VInt Int 5).
 Proof. split; vm_compute; reflexivity. Qed.
 Local Opaque wrap in_rangeb.
+
+(* ---------- float literal with an integral value meeting an integer operand ---------- *)
+Lemma kind_eqb_KI_KF64 k : kind_eqb (KI k) KF64 = false.
+Proof. destruct k; reflexivity. Qed.
+Lemma kind_eqb_KF64_KI k : kind_eqb KF64 (KI k) = false.
+Proof. destruct k; reflexivity. Qed.
+
+(* in every mode the literal adapts to the integer operand: the result, if any, has the integer's kind *)
+Lemma float_literal_adapts m o k v z r :
+  (binop m o (VInt k v, false) (VFlt z, true) = Ok r \/ binop m o (VFlt z, true) (VInt k v, false) = Ok r) ->
+  exists y, r = VInt k y /\ in_range k y.
+Proof.
+  unfold binop, normalize. cbn [kind_of is_numeric orb negb andb xorb].
+  rewrite kind_eqb_KI_KF64, kind_eqb_KF64_KI, !andb_false_r. cbn [andb].
+  assert (Hc : forall (co : value -> kind -> res value) c,
+             (co = coerce \/ co = coerce_lossless) -> co (VFlt z) (KI k) = Ok c -> c = VInt k z).
+  { intros co c [-> | ->]; unfold coerce_lossless; cbn [coerce to_f64].
+    - destruct (in_rangeb k z); [|discriminate]. intros H; injection H as <-; reflexivity.
+    - destruct (in_rangeb k z); [|discriminate]. cbn [to_f64]. destruct (z =? f64 z); [|discriminate].
+      intros H; injection H as <-; reflexivity. }
+  set (co := if is_strict m then coerce_lossless else coerce).
+  assert (Hco : co = coerce \/ co = coerce_lossless) by (unfold co; destruct (is_strict m); auto).
+  intros [H | H]; apply bind_ok in H; destruct H as (p & H1 & H2);
+    apply bind_ok in H1; destruct H1 as (c & H1 & H3); injection H3 as <-;
+    apply (Hc co c Hco) in H1; subst c; cbn [fst snd] in H2; rewrite arith_doc in H2;
+    apply doc_arith_kind in H2; exact H2.
+Qed.
